@@ -510,6 +510,7 @@ Definition H_BODY := s "body".
 Definition H_P := s "p".
 Definition REMOVE_TAGS : list str :=
   [s "script"; s "style"; s "noscript"; s "iframe"; s "object"; s "embed"; s "applet"].
+Definition VOID_REMOVE_TAGS : list str := [s "embed"].     (* removable void elements: nothing to skip *)
 Definition HEADING_TAGS : list str := [s "h1"; s "h2"; s "h3"; s "h4"; s "h5"; s "h6"].
 
 (* _get_node_text(node, include_children=True, include_tail) *)
@@ -599,7 +600,8 @@ Definition html_doc_simple (d : list hblock) : bool :=
 Inductive event := EvStart (tag : str) | EvEnd (tag : str) | EvData (d : str).
 
 Record epub_state := {
-  es_skip : Z;
+  es_skip : Z;                             (* skip_depth *)
+  es_skip_tag : str;                       (* _skip_tag: name of the removed element being skipped *)
   es_tables : list (list (list str));      (* reversed *)
   es_table : list (list str);              (* reversed *)
   es_row : list str;                       (* reversed *)
@@ -609,7 +611,7 @@ Record epub_state := {
   es_in_title : bool
 }.
 Definition epub_init : epub_state :=
-  {| es_skip := 0; es_tables := []; es_table := []; es_row := []; es_cell := [];
+  {| es_skip := 0; es_skip_tag := []; es_tables := []; es_table := []; es_row := []; es_cell := [];
      es_in_table := false; es_in_cell := false; es_in_title := false |}.
 
 (* _normalize_ws(" ".join(cell).strip()) : " ".join(value.split()) *)
@@ -626,42 +628,49 @@ Definition epub_step (is_ws : N -> bool) (st : epub_state) (e : event) : epub_st
   match e with
   | EvStart tag =>
       if (0 <? es_skip st)%Z then
-        {| es_skip := es_skip st + 1; es_tables := es_tables st; es_table := es_table st; es_row := es_row st;
-           es_cell := es_cell st; es_in_table := es_in_table st; es_in_cell := es_in_cell st; es_in_title := es_in_title st |}
+        (* only a nested element of the same name deepens the removed region *)
+        if str_eqb tag (es_skip_tag st) then
+          {| es_skip := es_skip st + 1; es_skip_tag := es_skip_tag st; es_tables := es_tables st; es_table := es_table st; es_row := es_row st;
+             es_cell := es_cell st; es_in_table := es_in_table st; es_in_cell := es_in_cell st; es_in_title := es_in_title st |}
+        else st
       else if mem_str tag REMOVE_TAGS then
-        {| es_skip := 1; es_tables := es_tables st; es_table := es_table st; es_row := es_row st;
-           es_cell := es_cell st; es_in_table := es_in_table st; es_in_cell := es_in_cell st; es_in_title := es_in_title st |}
+        if mem_str tag VOID_REMOVE_TAGS then st
+        else
+          {| es_skip := 1; es_skip_tag := tag; es_tables := es_tables st; es_table := es_table st; es_row := es_row st;
+             es_cell := es_cell st; es_in_table := es_in_table st; es_in_cell := es_in_cell st; es_in_title := es_in_title st |}
       else if str_eqb tag (s "title") then
-        {| es_skip := es_skip st; es_tables := es_tables st; es_table := es_table st; es_row := es_row st;
+        {| es_skip := es_skip st; es_skip_tag := es_skip_tag st; es_tables := es_tables st; es_table := es_table st; es_row := es_row st;
            es_cell := es_cell st; es_in_table := es_in_table st; es_in_cell := es_in_cell st; es_in_title := true |}
       else if str_eqb tag H_TABLE then
-        {| es_skip := es_skip st; es_tables := es_tables st; es_table := []; es_row := es_row st;
+        {| es_skip := es_skip st; es_skip_tag := es_skip_tag st; es_tables := es_tables st; es_table := []; es_row := es_row st;
            es_cell := es_cell st; es_in_table := true; es_in_cell := es_in_cell st; es_in_title := es_in_title st |}
       else if es_in_table st && str_eqb tag H_TR then
-        {| es_skip := es_skip st; es_tables := es_tables st; es_table := es_table st; es_row := [];
+        {| es_skip := es_skip st; es_skip_tag := es_skip_tag st; es_tables := es_tables st; es_table := es_table st; es_row := [];
            es_cell := es_cell st; es_in_table := es_in_table st; es_in_cell := es_in_cell st; es_in_title := es_in_title st |}
       else if es_in_table st && (str_eqb tag H_TD || str_eqb tag H_TH) then
-        {| es_skip := es_skip st; es_tables := es_tables st; es_table := es_table st; es_row := es_row st;
+        {| es_skip := es_skip st; es_skip_tag := es_skip_tag st; es_tables := es_tables st; es_table := es_table st; es_row := es_row st;
            es_cell := []; es_in_table := es_in_table st; es_in_cell := true; es_in_title := es_in_title st |}
       else st
   | EvEnd tag =>
       if (0 <? es_skip st)%Z then
-        {| es_skip := es_skip st - 1; es_tables := es_tables st; es_table := es_table st; es_row := es_row st;
-           es_cell := es_cell st; es_in_table := es_in_table st; es_in_cell := es_in_cell st; es_in_title := es_in_title st |}
+        if str_eqb tag (es_skip_tag st) then
+          {| es_skip := es_skip st - 1; es_skip_tag := es_skip_tag st; es_tables := es_tables st; es_table := es_table st; es_row := es_row st;
+             es_cell := es_cell st; es_in_table := es_in_table st; es_in_cell := es_in_cell st; es_in_title := es_in_title st |}
+        else st
       else if str_eqb tag (s "title") then
-        {| es_skip := es_skip st; es_tables := es_tables st; es_table := es_table st; es_row := es_row st;
+        {| es_skip := es_skip st; es_skip_tag := es_skip_tag st; es_tables := es_tables st; es_table := es_table st; es_row := es_row st;
            es_cell := es_cell st; es_in_table := es_in_table st; es_in_cell := es_in_cell st; es_in_title := false |}
       else if str_eqb tag H_TABLE then
-        {| es_skip := es_skip st;
+        {| es_skip := es_skip st; es_skip_tag := es_skip_tag st;
            es_tables := (if is_nil (es_table st) then es_tables st else rev (es_table st) :: es_tables st);
            es_table := []; es_row := es_row st;
            es_cell := es_cell st; es_in_table := false; es_in_cell := es_in_cell st; es_in_title := es_in_title st |}
       else if es_in_table st && str_eqb tag H_TR then
-        {| es_skip := es_skip st; es_tables := es_tables st;
+        {| es_skip := es_skip st; es_skip_tag := es_skip_tag st; es_tables := es_tables st;
            es_table := (if is_nil (es_row st) then es_table st else rev (es_row st) :: es_table st); es_row := [];
            es_cell := es_cell st; es_in_table := es_in_table st; es_in_cell := es_in_cell st; es_in_title := es_in_title st |}
       else if es_in_table st && (str_eqb tag H_TD || str_eqb tag H_TH) then
-        {| es_skip := es_skip st; es_tables := es_tables st; es_table := es_table st;
+        {| es_skip := es_skip st; es_skip_tag := es_skip_tag st; es_tables := es_tables st; es_table := es_table st;
            es_row := epub_norm_cell is_ws (rev (es_cell st)) :: es_row st;
            es_cell := []; es_in_table := es_in_table st; es_in_cell := false; es_in_title := es_in_title st |}
       else st
@@ -669,7 +678,7 @@ Definition epub_step (is_ws : N -> bool) (st : epub_state) (e : event) : epub_st
       if (0 <? es_skip st)%Z then st
       else if es_in_title st then st
       else if es_in_cell st then
-        {| es_skip := es_skip st; es_tables := es_tables st; es_table := es_table st; es_row := es_row st;
+        {| es_skip := es_skip st; es_skip_tag := es_skip_tag st; es_tables := es_tables st; es_table := es_table st; es_row := es_row st;
            es_cell := d :: es_cell st; es_in_table := es_in_table st; es_in_cell := es_in_cell st; es_in_title := es_in_title st |}
       else st
   end.
